@@ -448,4 +448,11 @@ example : (run true [] (init [1] 3 100) [.request, .reboot, .advance 50, .reques
     `C12_retry_once` are built on. -/
 theorem C12_retry_shape : Snmp.Gen.retryOnceShape = true := by decide
 
+
+/-- in `V3MPM.encode` the security engine id — for the timing data and for the request's security
+    parameters and keys — is the DISCOVERED one, and the caller's engine id is only the context engine
+    id, defaulting to the discovered one (shape of the code, generated): what `sendWith` and
+    `C12_engine_ids` are built on (seeded C05-43 / C10-51 / C11-42 merged the two variables) -/
+theorem C12_engine_id_shape : Snmp.Gen.securityEngineIsDiscovered = true := by decide
+
 end Snmp.Props.C12
